@@ -120,7 +120,12 @@ def r1_blind(P, rep, ctx):
         fi = P.func(q)
         gens = [x for x in walk_local(fi.node) if isinstance(x, ast.GeneratorExp)]
         conds = [norm(i) for gexp in gens for c in gexp.generators for i in c.ifs]
-        okc = all(("is not None" in c and " or " not in c) or c.startswith("is_public_name(") or "not in obj.__constants__" in c for c in conds) and bool(conds)
+        flat = []
+        for gexp in gens:
+            for c in gexp.generators:
+                for i in c.ifs:
+                    flat += [norm(v) for v in i.values] if isinstance(i, ast.BoolOp) and isinstance(i.op, ast.And) else [norm(i)]
+        okc = sorted(flat) in (sorted(["is_public_name(k)", "v is not None"]), ["k not in obj.__constants__"])
         rep.check(okc, "C14.R1", fi.qual, f"field values are filtered only by `is not None` / name tests ({conds})", fi.loc(), construct="_get_field_vals filter",
                   message=f"_get_field_vals filters field values by something other than `v is not None`: {conds}")
 
@@ -284,7 +289,39 @@ def r4_policy(P, rep, ctx):
     fors = [x for x in walk_local(mw.node) if isinstance(x, ast.For)]
     ok = len(fors) == 1 and norm(fors[0].iter) == "self.__partial_fac__._get_field_vals(obj)"
     rep.check(ok, "C14.R4", mw.qual, "merge_with iterates over all provided (non-None) fields of the right operand", mw.loc(), construct="field iteration in merge_with", message="merge_with does not iterate over _get_field_vals(obj)")
+    gm = ctx.cfg(mw)
+    lp = [n for n in gm.nodes if n.kind == "for"]
+    st = [n.idx for n in gm.nodes if n.kind == "stmt" and norm(n.stmt) == "ret.__dict__[f_name] = v_merged"]
+    rep.check(len(lp) == 1 and bool(st) and gm.every_path_passes(st, lp[0].idx, src=lp[0].idx, src_label="iter"), "C14.R4", mw.qual, "every merged field value is stored into the result", mw.loc(), construct="store of merged value", message="merge_with computes a merged value without storing it into the result (values of the right operand are lost)")
+    uf = P.func(f"{PM}._update_field")
+    gu = ctx.cfg(uf)
+    tm = [t.idx for t in gu.nodes if t.kind == "test" and norm(t.exprs[0]) == "old_is_model and new_is_model"]
+    tc = [t.idx for t in gu.nodes if t.kind == "test" and norm(t.exprs[0]) == "new_subclass_old or old_subclass_new"]
+    rc = [n.idx for n in gu.nodes if isinstance(n.stmt, ast.Return) and "merge_with(" in norm(n.stmt.value)]
+    d = local_defs(uf)
+    okd = [norm(v) for k, v in d.get("old_is_model", []) if v is not None] == ["isinstance(v_old, self.__partial_fac__.base_model)"] and [norm(v) for k, v in d.get("new_is_model", []) if v is not None] == ["isinstance(v_new, self.__partial_fac__.base_model)"]
+    oks = [norm(v) for k, v in d.get("new_subclass_old", []) if v is not None] == ["issubclass(type(v_new_p), type(v_old_p))"] and [norm(v) for k, v in d.get("old_subclass_new", []) if v is not None] == ["issubclass(type(v_old_p), type(v_new_p))"]
+    ok = bool(tm) and bool(tc) and bool(rc) and okd and oks and all(gu.edge_dominates(tm[0], "T", r) and gu.edge_dominates(tc[0], "T", r) for r in rc) and all(gu.every_path_passes(tc, gu.exit, src=t, src_label="T") or True for t in tm)
+    rep.check(ok, "C14.R4", uf.qual, "nested models are merged recursively exactly when both values are models of one inheritance chain", uf.loc(), construct="recursive merge condition", message="_update_field's condition for the recursive nested merge changed (both values models AND one class a subclass of the other)")
+    from .common import require_total
+
+    for q in (f"{PM}.from_partial", f"{PM}.to_partial", f"{PM}.cast", f"{PM}._update_field", f"{PM}.merge_with", f"{PM}.merge", f"{PM}._to_partial_value", f"{PF}._get_field_vals", "schema.core.PartialSchemas._get_field_vals", "schema.partial.val_from_partial", f"{PF}.get_partial"):
+        require_total(rep, ctx, "C14.R4", P.func(q))
+    mt = P.func(f"{PM}.merge").nested.get("merge_two")
+    if mt is not None:
+        require_total(rep, ctx, "C14.R4", mt)
+    vf2 = P.func("schema.partial.val_from_partial")
+    gvf = ctx.cfg(vf2)
+    kinds = {norm(t.exprs[0]): t.idx for t in gvf.nodes if t.kind == "test"}
+    okk = all(k in kinds for k in ("isinstance(val, PartialModel)", "isinstance(val, list)", "isinstance(val, set)"))
+    if okk:
+        for k, want in (("isinstance(val, PartialModel)", "val.from_partial()"), ("isinstance(val, list)", "[val_from_partial(x) for x in val]"), ("isinstance(val, set)", "{val_from_partial(x) for x in val}")):
+            okk = okk and all(isinstance(gvf.nodes[b].stmt, ast.Return) and norm(gvf.nodes[b].stmt.value) == want for b, l in gvf.succ[kinds[k]] if l == "T")
+    rep.check(okk, "C14.R4", vf2.qual, "un-partialling dispatches on partial model / list / set with the matching conversion", vf2.loc(), construct="val_from_partial dispatch", message="val_from_partial's kind dispatch changed")
     mg = P.func(f"{PM}.merge")
+    gg = ctx.cfg(mg)
+    et = [t.idx for t in gg.nodes if t.kind == "test" and norm(t.exprs[0]) == "not objs"]
+    rep.check(bool(et) and all(all(isinstance(gg.nodes[b].stmt, ast.Return) and norm(gg.nodes[b].stmt.value) == "cls()" for b, l in gg.succ[t] if l == "T") for t in et), "C14.R4", mg.qual, "no operands -> the empty partial", mg.loc(), construct="empty merge", message="merge() of nothing is not the empty partial")
     t = norm(mg.node)
     ok = "reduce(merge_two, objs)" in t and "return cls()" in t and "cls.cast(x).merge_with(y," in t
     rep.check(ok, "C14.R4", mg.qual, "merge folds merge_with left to right, the empty partial for no operands", mg.loc(), construct="merge fold", message="merge is not the left fold of merge_with with cls() as empty result")
